@@ -24,6 +24,19 @@ type foShape struct {
 }
 
 func genFOBase(r *rand.Rand, sh foShape) *Scenario {
+	if genTier == "thorough" && chance(r, 0.3) {
+		// deeper bounds in the thorough tier
+		sh.maxOps += 2
+
+		if sh.maxKeys > 1 {
+			sh.maxKeys++
+		}
+
+		if sh.maxClients > sh.minClients {
+			sh.maxClients += 2
+		}
+	}
+
 	sc := &Scenario{Engine: "fo", TickNs: pick(r, int64(1), 100, 100, 1000), MapSeed: r.Uint64(), JitterSeed: r.Uint64()}
 	sc.JitterMode = pick(r, "", "zero", "max", "prng")
 	sc.NoFastPath = chance(r, 0.1)
